@@ -5,6 +5,7 @@ from lib.props.c08 import parse_view, reach, succ
 LEVEL = "proof"
 MODEL_FILES = ["Model/View.v", "Model/Traversal.v", "Model/AlgoBasic.v", "Model/UnionFindM.v", "Model/CondenseM.v", "Model/AlgoIO.v"]
 THEOREMS = []
+EXTRA_PROPS = ["C09b"]
 STREAMS = [("C09", 3000, 120000)]
 SHARD = 5000
 RULE = ("sparse random directed and undirected multigraphs on 1..10 nodes (self-loops, parallel edges, several components, "
